@@ -115,6 +115,19 @@ func finish(rep *Report, out *world.Outcome) *Report {
 	rep.WallMs = float64(out.Wall.Microseconds()) / 1000
 	rep.Unclean = !res.Clean
 	rep.Stuck = append(append([]string{}, res.Stuck...), res.Native...)
+	if os.Getenv("VERIF_DEBUG") != "" && out.Env != nil {
+		fmt.Fprintf(os.Stderr, "--- notes: %v\n", out.Env.Notes)
+		for _, st := range out.Env.Obs.Status {
+			fmt.Fprintf(os.Stderr, "status step=%d sess=%s %d->%d\n", st.Step, world.SessKey(st.Sess), st.From, st.To)
+		}
+		for _, pe := range out.Env.Obs.Plugins {
+			fmt.Fprintf(os.Stderr, "plugin step=%d %s %s %s sess=%s seq=%d\n", pe.Step, pe.Peer, pe.Plugin, pe.Stage, pe.Sess, pe.Seq)
+		}
+		for _, f := range res.Failures {
+			fmt.Fprintf(os.Stderr, "FAIL %s\n", f)
+		}
+		fmt.Fprintf(os.Stderr, "stuck=%v native=%v\n", res.Stuck, res.Native)
+	}
 	if tp := os.Getenv("VERIF_TRACE"); tp != "" && tp != "1" {
 		if f, err := os.OpenFile(tp, os.O_APPEND|os.O_CREATE|os.O_WRONLY, 0o644); err == nil {
 			fmt.Fprintf(f, "=== run sig=%x steps=%d\n%s\n", res.Sig, res.Stats.Steps, strings.Join(res.Log, "\n"))
